@@ -35,10 +35,17 @@ inductive PSel where
   | unresolved (name : Str)
 deriving Repr, Inhabited
 
+/-- `description.replace("*/", "*\\/")` (repair ce7cb8c of F13b: a `*/` inside a description no
+longer ends the doc comment) -/
+def escapeDocEnd : Str → Str
+  | 42 :: 47 :: rest => 42 :: 92 :: 47 :: escapeDocEnd rest
+  | c :: rest => c :: escapeDocEnd rest
+  | [] => []
+
 /-- `write_optional_description` -/
 def descText (level : Nat) : Option Str → Str
   | none => []
-  | some d => indent level ++ cs!"/**\n" ++ d ++ [10] ++ indent level ++ cs!"*/\n"
+  | some d => indent level ++ cs!"/**\n" ++ escapeDocEnd d ++ [10] ++ indent level ++ cs!"*/\n"
 
 /-- `EntityNameAndSelectableName::underscore_separated` -/
 def underscoreSeparated (entity selectable : Str) : Str := entity ++ cs!"__" ++ selectable
